@@ -150,6 +150,9 @@ class Solver:
             r = self.resolve_projection(ty['qualified_path'])
             if r is not None:
                 return self.holds(K, r, depth + 1)
+            q = ty['qualified_path']
+            if q.get('name') == 'Base' and 'generic' in q.get('self_type', {}):
+                return self.var(K, '<%s as RefCnt>::Base' % q['self_type']['generic'])
             return self.var(K, self.show(ty))
         if 'resolved_path' in ty:
             rp = ty['resolved_path']
